@@ -302,8 +302,22 @@ class C11(EvalFamProp):
             if r2.random() < 0.4:
                 items = [('o', M(items[:2]))] + items[2:] if items[0][0] != 'm' and items[1][0] != 'm' else items
             cases.append({'docs': [{'raw': M(items)}], 'style': ['block', 0, 0], 'mutating': True})
+        # SIZE: nesting just beyond a hundred levels, and one anchored mapping aliased dozens of times (the evaluation of a node that
+        # was evaluated before is answered from a cache: many such answers in one evaluation) - seeded change S8-C11: a depth guard
+        # counting entries that are never popped. The aliased documents are outside the model (shared nodes): oracle only.
+        for i in range(2):
+            depth = r2.choice([101, 102, 103, 104])
+            inner = S(r2.randrange(9))
+            for _ in range(depth):
+                inner = M([('a', inner)])
+            cases.append({'docs': [{'raw': M([('k', S(1)), ('d', inner)])}], 'style': ['flow', 0, 0], 'huge': True})
+        for i in range(2):
+            cnt = r2.choice([40, 55, 70])
+            body = r2.choice([M([('k', S(1)), ('l', Q([S(2)]))]), Q([S(1), M([('z', S(2))])]), M([('k', S(1))], kw={'prio': 1})])
+            items = [('first', dict(body, anchor='rep'))] + [('r%d' % j, {'alias': 'rep'}) for j in range(cnt)]
+            cases.append({'docs': [{'raw': M(items)}], 'style': ['flow', 0, 0], 'huge': True, 'mutating': False, 'shared_doc': True})
         for c in cases:
-            if c.get('mutating'):
+            if c.get('mutating') or c.get('huge'):
                 continue
             if r2.random() < self.P_ALIAS:
                 for _ in range(3):
@@ -315,21 +329,21 @@ class C11(EvalFamProp):
         return cases + [gen_bunch_case(r3) for _ in range(max(1, n // 2))]
 
     def model_requests(self, case):
-        if case.get('files') or case.get('mutating'):
+        if case.get('files') or case.get('mutating') or case.get('shared_doc'):
             return []           # !rec is outside the model (DESIGN section 6): the oracle alone applies
         if case.get('kind') == 'bunch':
             return bunch_requests(case, bunch_run(case))
         return EvalFamProp.model_requests(self, case)
 
     def model_obs(self, case, answers):
-        if case.get('files') or case.get('mutating'):
+        if case.get('files') or case.get('mutating') or case.get('shared_doc'):
             return {'rec': True}
         if case.get('kind') == 'bunch':
             return {'bunch': answers[0]}
         return EvalFamProp.model_obs(self, case, answers)
 
     def compare(self, case, io, mo):
-        if case.get('files') or case.get('mutating'):
+        if case.get('files') or case.get('mutating') or case.get('shared_doc'):
             return 'SKIP'
         if case.get('kind') == 'bunch':
             return bunch_compare(case, io, mo['bunch'])
@@ -487,6 +501,12 @@ class C11(EvalFamProp):
             return io['checks'][0] if io['checks'] else None
         if io['cfg'].get('err') == 'HANG':
             return 'evaluation did not terminate'
+        if case.get('huge'):
+            if io['cfg'].get('err') == 'recursion':
+                return None          # the interpreter's own recursion limit: not what is under test
+            if 'ok' not in io['cfg']:
+                return ('a plain document (deeply nested / one mapping aliased many times) must evaluate: '
+                        + json.dumps({k: v for k, v in io['cfg'].items() if k != 'log'})[:200])
         cyc = ans and ans[0].get('err') in ('recursion', 'unsupported')
         for c in io.get('checks', []):
             if cyc and ('PartialChild' in c or 'key' in c or 're-evaluating' in c or '!= cfg' in c):
